@@ -25,6 +25,24 @@ using namespace vf;
 
 static const unsigned long FS = 512, GS = 160;
 
+// The reliable broadcast reports a DeliverFrom that ran into its time-out on std::cerr
+// ("RBC(i): timeout delivering from j").  The harness owns std::cerr and counts these lines per
+// (running party, j): a time-out between two honest parties means that the synchronous broadcast the
+// DKG/DSS protocols are built on was not provided in that run (marker for triage, never a verdict).
+struct CerrWatch : public std::streambuf {
+	std::function<void(int, const std::string &)> on_line;   // (task id or -1, line)
+	static std::string &line() { static thread_local std::string l; return l; }
+	int overflow(int c) override {
+		if (c == EOF) return 0;
+		if (c == '\n') { if (on_line) on_line(tl_task ? tl_task->id : -1, line()); line().clear(); }
+		else if (line().size() < 4096) line().push_back((char)c);
+		return c;
+	}
+	std::streamsize xsputn(const char *p, std::streamsize n) override { for (std::streamsize i = 0; i < n; i++) overflow((unsigned char)p[i]); return n; }
+};
+static CerrWatch *g_cerr = nullptr;
+static void install_cerr_watch() { g_cerr = new CerrWatch; std::cerr.rdbuf(g_cerr); std::clog.rdbuf(g_cerr); }
+
 struct Grp {
 	mpz_t p, q, g, h;
 	Grp() { mpz_init(p); mpz_init(q); mpz_init(g); mpz_init(h); }
@@ -91,7 +109,7 @@ struct Scenario {
 enum PhaseKind { PH_GEN, PH_SIGN, PH_REFRESH, PH_RSIGN };
 struct Phase { PhaseKind kind; int msg; const char *label; };
 
-struct Out { bool called = false, ret = false, lv = false; std::string a, s, y, share, exc; std::vector<size_t> qual; int erased = 0; };
+struct Out { bool called = false, ret = false, lv = false; std::string a, s, y, share, exc; std::vector<size_t> qual; int erased = 0, hbt = 0; std::string hbt_from; };
 
 // positions in CanettiGennaroJareckiKrawczykRabinDSS::Sign's simulate_faulty_randomizer[] that
 // make the faulty party drop out (throw false); the others corrupt one broadcast value
@@ -111,6 +129,9 @@ struct Run {
 	std::vector<std::string> logs;
 	RunStats st;
 	size_t stop_after = (size_t)-1;          // phases after this index are skipped (key generation failed)
+	std::vector<long> cur_phase;             // [party] phase it is in (-1: barrier / none)
+	std::vector<bool> in_reduced;            // [party] running on the reduced channel set
+	size_t t_rbc = 0, t_rbc_r = 0;
 };
 
 static bool all_honest_true(const Run &R, size_t ph, bool members_only = false) {
@@ -184,6 +205,18 @@ static void run_scenario(Run &R) {
 	sched.use_vclock = true; sched.random_pick = true;
 	size_t nr = R.subset.size();
 	size_t tr = nr ? std::min(t, (nr - 1) / 3) : 0;
+	// the broadcast is configured inside its own resilience bound (3 t_rbc < n), as a deployment would
+	size_t t_rbc = std::min(t, (n - 1) / 3);
+	R.t_rbc = t_rbc; R.t_rbc_r = tr;
+	R.cur_phase.assign(n, -1); R.in_reduced.assign(n, false);
+	if (g_cerr) g_cerr->on_line = [&R, n](int task, const std::string &l) {
+		if (task < 0 || (size_t)task >= n) return;
+		unsigned long a = 0, b = 0;
+		if (sscanf(l.c_str(), "RBC(%lu): timeout delivering from %lu", &a, &b) != 2) return;
+		size_t from = b; if (R.in_reduced[task]) { if (b >= R.subset.size()) return; from = R.subset[b]; }
+		long ph = R.cur_phase[task]; if (ph < 0 || from >= n) return;
+		if (!R.isfaulty[task] && !R.isfaulty[from]) { Out &o = R.out[ph][task]; o.hbt++; if (o.hbt_from.size() < 40) o.hbt_from += std::to_string(from) + ","; }
+	};
 	Net uni(n, &sched), bc(n, &sched), uni_r(nr ? nr : 1, &sched), bc_r(nr ? nr : 1, &sched);
 	uni.preempt_p = bc.preempt_p = uni_r.preempt_p = bc_r.preempt_p = sc.preempt;
 	Barrier bar(n), bar_r(n);
@@ -204,7 +237,7 @@ static void run_scenario(Run &R) {
 			std::stringstream err;
 			try {
 				SimUnicast aiou(n, i, &uni, RR, R.TO), aiou2(n, i, &bc, RR, R.TO);
-				CachinKursawePetzoldShoupRBC rbc(n, t, i, &aiou2, RR, R.TO);
+				CachinKursawePetzoldShoupRBC rbc(n, t_rbc, i, &aiou2, RR, R.TO);
 				rbc.setID("c16-simnet");
 				std::unique_ptr<SimUnicast> raiou, raiou2; std::unique_ptr<CachinKursawePetzoldShoupRBC> rrbc;
 				size_t ri = 0;
@@ -225,6 +258,7 @@ static void run_scenario(Run &R) {
 					const Phase &P = R.phases[ph]; Out &o = R.out[ph][i]; mpz_ptr m = M[ph].get();
 					err << "=== phase " << ph << " " << P.label << " vtime=" << (g_vtime - t_start) << std::endl;
 					std::streamoff log_from = (std::streamoff)err.tellp();
+					R.cur_phase[i] = (long)ph; R.in_reduced[i] = (P.kind == PH_RSIGN);
 					auto state = [&]() {
 						if (nts) { o.y = mpz_dec(nts->y); o.share = mpz_dec(nts->z_i); o.qual = nts->QUAL; }
 						else { o.y = mpz_dec(dss->y); o.share = mpz_dec(dss->x_i); o.qual = dss->QUAL; }
@@ -260,6 +294,7 @@ static void run_scenario(Run &R) {
 						}
 						break;
 					}
+					R.cur_phase[i] = -1; R.in_reduced[i] = false;
 					if (o.called) {
 						// observability for triage: the library logs when DL-Key-Gen drops a party from QUAL after
 						// the Joint-RVSS that fixed the shares (see notes/c16.md, finding DKG-erased)
@@ -283,6 +318,7 @@ static void run_scenario(Run &R) {
 		}, ctx.seed, (uint64_t)R.kcase * 64 + 1);
 	}
 	sched.run();
+	if (g_cerr) g_cerr->on_line = nullptr;
 	if (!trace.empty()) { std::ofstream f(ctx.option("logdir", ".") + "/trace" + std::to_string(R.kcase) + ".txt"); for (auto &l : trace) f << l << "\n"; }
 	R.st.hung = sched.hung; R.st.vdur = g_vtime - t_start; R.st.uni_sent = uni.sent + uni_r.sent; R.st.bc_sent = bc.sent + bc_r.sent; R.st.switches = sched.switches;
 	for (auto tk : sched.tasks) {
@@ -310,7 +346,7 @@ static void do_run_case(long k, const Scenario &sc) {
 	}
 	record(J().kv("k", "run").kv("scheme", S).kv("n", (long long)sc.n).kv("thr", (long long)sc.t).arrn("faulty", sc.faulty).kv("fmode", FMODE[sc.fmode])
 	       .kv("keygen_faulty", R.kf).kv("cut", R.cut).arrn("subset", R.subset).kv("hung", R.st.hung).kv("vdur", R.st.vdur).kv("spin_parks", R.st.spin_parks)
-	       .kv("uni_sent", (unsigned long long)R.st.uni_sent).kv("bc_sent", (unsigned long long)R.st.bc_sent).kv("switches", (unsigned long long)R.st.switches).str());
+	       .kv("uni_sent", (unsigned long long)R.st.uni_sent).kv("bc_sent", (unsigned long long)R.st.bc_sent).kv("switches", (unsigned long long)R.st.switches).kv("t_rbc", (long long)R.t_rbc).kv("t_rbc_reduced", (long long)R.t_rbc_r).str());
 	for (size_t ph = 0; ph < R.phases.size(); ph++) {
 		const Phase &P = R.phases[ph];
 		bool sign = (P.kind == PH_SIGN || P.kind == PH_RSIGN);
@@ -320,7 +356,7 @@ static void do_run_case(long k, const Scenario &sc) {
 			reached = true;
 			if (!R.isfaulty[i]) { hcalled++; if (o.ret) htrue++; }
 			J j; j.kv("k", sign ? "sig" : "key").kv("scheme", S).kv("n", (long long)sc.n).kv("thr", (long long)sc.t).arrn("faulty", sc.faulty).kv("fmode", FMODE[sc.fmode])
-			    .kv("ph", (long long)ph).kv("phase", P.label).kv("party", (long long)i).kv("honest", !R.isfaulty[i]).kv("ret", o.ret).kv("y", o.y).kv("share", o.share).raw("qual", jarr(o.qual)).kv("erased", o.erased);
+			    .kv("ph", (long long)ph).kv("phase", P.label).kv("party", (long long)i).kv("honest", !R.isfaulty[i]).kv("ret", o.ret).kv("y", o.y).kv("share", o.share).raw("qual", jarr(o.qual)).kv("erased", o.erased).kv("hbt", o.hbt).kv("hbt_from", o.hbt_from);
 			if (sign) { j.kv("m", R.msgs[ph]).kv("mname", MSG_NAME[P.msg]).kv("a", o.a).kv("s", o.s).kv("lv", o.lv); if (P.kind == PH_RSIGN) j.arrn("subset", R.subset); }
 			if (!o.exc.empty()) j.kv("exc", o.exc);
 			record(j.str());
@@ -479,7 +515,7 @@ static std::vector<Scenario> build_cases() {
 
 int main(int argc, char **argv) {
 	init(argc, argv);
-	if (ctx.option("cerr").empty()) null_cerr();
+	if (ctx.option("cerr").empty()) install_cerr_watch();
 	if (!init_libTMCG()) { fprintf(stderr, "init_libTMCG failed\n"); return 2; }
 	long k = 0;
 	std::string scen = ctx.option("scen");
